@@ -532,3 +532,35 @@ def rule_rmerge(ck, units, control=None, floor_rows=2, floor_coef=5):
             for k, (cid, res) in enumerate(sorted(w.merges.items())):
                 for j, (ok, t) in enumerate(res):
                     ck.ob('rmerge-coefficient', '%s|%s|merge#%d.%d' % (f.rel(), f.q, k + 1, j + 1), f.where(f.nodes[cid]), ok, t)
+
+
+def rule_factor_order(ck, units, floor=4):
+    """C = A * B for non-commuting (block) values: wherever the row-merge kernel multiplies a coefficient taken from A (the by-value / by-reference
+    scalar: alpha1, alpha2 of merge_rows, the local read from the value cursor in prod_row) with a value of B read through a pointer
+    (`*val1++`, `*bv++`), the coefficient of A is the LEFT factor."""
+    ck.rule('rmerge-factor-order', 'row-merge SpGEMM (merge_rows, prod_row): in every product of a coefficient of A (a plain variable) and a value of B read through a pointer the '
+                                   'coefficient of A is the left factor (block values do not commute)', floor)
+    done = set()
+    for u in units.values():
+        for f in u.funcs:
+            if f.q not in ('amgcl::backend::merge_rows', 'amgcl::backend::prod_row') or f.body is None or (f.q, f.line) in done:
+                continue
+
+            def through_pointer(e):
+                e = unwrap(e)
+                return e is not None and ((e['k'] == 'un' and e['op'] == '*') or e['k'] == 'idx')
+
+            def plain(e):
+                e = unwrap(e)
+                return e is not None and e['k'] == 'ref' and not f.decl(e['d']).get('ptr')
+            k = 0
+            for n in sorted((x for x in f.nodes.values() if x['k'] == 'bin' and x['op'] == '*'), key=lambda x: x['i']):
+                a, b = n['x'], n['y']
+                if (plain(a) and through_pointer(b)) or (plain(b) and through_pointer(a)):
+                    k += 1
+                    ok = plain(a)
+                    ck.ob('rmerge-factor-order', '%s|%s|product#%d' % (f.rel(), f.q.split('::')[-1], k), f.where(n), ok, '' if ok else
+                          '`%s` at %s multiplies the value of B (read through a pointer) from the left with the coefficient of A: for block values the entry of C is B_kj * A_ik instead of A_ik * B_kj' % (
+                              show(n)[:50], f.where(n)))
+            if k:
+                done.add((f.q, f.line))
